@@ -1,12 +1,12 @@
 // ---------------------------------------------------------------------------------
 // shims/packet_from_reader.rs - Packet::from_reader (src/packet/single.rs) and parsing::Error::is_incomplete as
 // *assumed* contracts, for units whose subject merely calls them (U46 PacketParser).  The contracts are copied
-// verbatim from the ensures PROVED on the real code in units/U45_packet_single.vu (same instance:
+// verbatim from the ensures PROVED on the real code in units/U45b_packet_single_ioclass.vu (and, without the rewrite of `?`, units/U45_packet_single.vu; same instance:
 // body = PacketBodyReader<&mut R>).
 // Include after shims/packet_parsers.rs, lemmas/packet_body_view.rs, shims/packet_body_reader_ref.rs,
 // lemmas/packet_classify.rs.
 // ---------------------------------------------------------------------------------
-//@trusted T4 Packet::from_reader at body: &mut PacketBodyReader<&mut R>: unless it answers Error::IO (the drain failed) the body reader is left in state Done, all of the body consumed, same source reference; an ill-framed body always ends in Error::IO; the result is classify(parser result, octets left) (proved in U45).  parsing::Error::is_incomplete is TooShort | UnexpectedEof (proved in U45)
+//@trusted T4 Packet::from_reader at body: &mut PacketBodyReader<&mut R>: unless it answers Error::IO (the drain failed) the body reader is left in state Done, all of the body consumed, same source reference; an ill-framed body always ends in Error::IO; the result is classify(parser result, octets left) (proved in U45b/U45).  parsing::Error::is_incomplete is TooShort | UnexpectedEof (proved in U45)
 impl Packet {
     #[verifier::external_body]
     pub fn from_reader<'a, R: io::BufRead>(packet_header: PacketHeader, body: &mut PacketBodyReader<&'a mut R>) -> (r: errors::Result<Packet>)
